@@ -10,6 +10,16 @@ from . import core, gen01
 PID = "C05"
 
 NEST = {
+    # shapes where a speculative parse (arrow parameters, generic arrow, type arguments) can be repeated per level
+    'angle-assert-paren': lambda n: 'var r = ' + '<A>(' * n + '1' + ')' * n, 'cond-assignparen': lambda n: 'var r = ' + 'c ? (a = ' * n + '1' + ') : 2' * n, 'assignparen-slash': lambda n: 'var r = ' + '(a = ' * n + '1/2' + ')' * n,
+    'assignparen-template': lambda n: 'var r = ' + '(a = ' * n + '`t`' + ')' * n, 'truncated-default-function': lambda n: '(a = function () { ' * n + '1', 'truncated-default-arrow': lambda n: '(a = () => { ' * n + '1',
+    'truncated-default-method': lambda n: '(a = { m() { ' * n + '1', 'closed-default-function': lambda n: '(a = function () { ' * n + '1' + ' })' * n, 'default-function-then-colon': lambda n: 'var r = ' + 'c ? (a = function () { return ' * n + '1' + ' }) : 2' * n,
+    'generic-arrow-nest': lambda n: 'var r = ' + '<T>(a = ' * n + '1' + ') => a' * n, 'lt-chain': lambda n: 'a' + '<a' * n, 'generic-call-chain': lambda n: 'f' + '<A>(1)' * n,
+    # type-level prefix operators and chains
+    'keyof-type': lambda n: 'type K = ' + 'keyof ' * n + 'A;', 'readonly-type': lambda n: 'type K = ' + 'readonly ' * n + 'A[];', 'neg-literal-type': lambda n: 'type K = ' + '- ' * 1 + '1' + ' | -1' * n + ';', 'array-suffix-type': lambda n: 'type K = A' + '[]' * n + ';',
+    'indexed-type': lambda n: "type K = A" + "['a']" * n + ';', 'intersection-type': lambda n: 'let x: ' + 'a&' * n + 'b;', 'typeof-qualified': lambda n: 'let x: typeof a' + '.b' * n + ';', 'tuple-named': lambda n: 'let x: [' + ','.join('m%d?: number' % i for i in range(n + 1)) + '];',
+    'import-type': lambda n: "let x: import('./m')" + '.T' * n + ';', 'fn-type-generic': lambda n: 'let x: ' + '<U>(a: U) => ' * n + 'void;', 'overloads': lambda n: 'function f(a: number): void;\n' * n + 'function f(a: any) {}',
+    'nullish-chain': lambda n: 'a' + '??a' * n + '??1', 'or-chain': lambda n: 'a' + '||a' * n,
     'paren': lambda n: '(' * n + '1' + ')' * n, 'array': lambda n: '[' * n + ']' * n, 'object': lambda n: 'x=' + '{a:' * n + '1' + '}' * n,
     'block': lambda n: '{' * n + '}' * n, 'unary': lambda n: '!' * n + '1', 'unary-minus': lambda n: '- ' * n + '1', 'typeof': lambda n: 'typeof ' * n + '1',
     'binary-right': lambda n: '1' + '**2' * n, 'binary-left': lambda n: '1' + '+1' * n, 'logical': lambda n: 'a' + '&&a' * n, 'nullish': lambda n: 'a' + '??a' * n,
